@@ -37,6 +37,7 @@ type schedBatch struct {
 	Overcommit     int64             `json:"overcommit_scenarios"`
 	PerturbHits    int64             `json:"perturb_hits"`
 	MustNotStart   int64             `json:"must_not_start_jobs"`
+	DeadCtxJobs    int64             `json:"dead_ctx_jobs"`
 	Failures       int64             `json:"failed_jobs"`
 	Goexits        int64             `json:"goexit_jobs"`
 	Blocked        int64             `json:"transitively_blocked_jobs"`
@@ -69,6 +70,7 @@ type schedAgg struct {
 	Overcommit     int64
 	Perturb        int64
 	MustNotStart   int64
+	DeadCtxJobs    int64
 	Failures       int64
 	Goexits        int64
 	Blocked        int64
@@ -198,6 +200,7 @@ func runSched(c *ctx, plan []famCount, race bool) *schedAgg {
 		agg.ShadowEvents += br.ShadowEvents
 		agg.ExactStates += br.ExactStates
 		agg.MustNotStart += br.MustNotStart
+		agg.DeadCtxJobs += br.DeadCtxJobs
 		agg.Failures += br.Failures
 		agg.Goexits += br.Goexits
 		agg.Blocked += br.Blocked
@@ -281,17 +284,18 @@ func firstLines(s string, n int) string {
 
 func (a *schedAgg) coverage(rule string) map[string]interface{} {
 	return map[string]interface{}{
-		"evaluations":                             a.Evaluations,
-		"distinct_nontrivial":                     min(len(a.Distinct), a.NonTrivial),
-		"rule":                                    rule,
-		"samples":                                 a.Samples,
-		"scenarios_by_family":                     a.ByFamily,
-		"jobs_submitted":                          a.Jobs,
-		"job_bodies_started":                      a.Started,
-		"state_reports_checked":                   a.States,
-		"late_enqueues_seen_by_loop":              a.Late,
-		"perturbations_injected":                  a.Perturb,
-		"must_not_start_jobs_checked":             a.MustNotStart,
+		"evaluations":                 a.Evaluations,
+		"distinct_nontrivial":         min(len(a.Distinct), a.NonTrivial),
+		"rule":                        rule,
+		"samples":                     a.Samples,
+		"scenarios_by_family":         a.ByFamily,
+		"jobs_submitted":              a.Jobs,
+		"job_bodies_started":          a.Started,
+		"state_reports_checked":       a.States,
+		"late_enqueues_seen_by_loop":  a.Late,
+		"perturbations_injected":      a.Perturb,
+		"must_not_start_jobs_checked": a.MustNotStart,
+		"jobs_submitted_with_own_done_context_that_reached_a_worker": a.DeadCtxJobs,
 		"failed_jobs":                             a.Failures,
 		"goexit_jobs":                             a.Goexits,
 		"transitively_blocked_jobs":               a.Blocked,
